@@ -1,0 +1,17 @@
+//go:build verif
+
+package walstore
+
+// VerifHook, when non-nil, is called at named points between the file-system steps of one
+// Flush (after the batch is synced, after the prune-watermark temp file is written, after it
+// is renamed into place, after the log file is rotated, after each obsolete log file is
+// removed). It exists only in builds with the `verif` tag and lets the crash-consistency check
+// (/verif, property C14) capture the directory exactly as a crash at that point would leave it.
+// The callback runs with the store's mutex held and must not call back into the store.
+var VerifHook func(point string)
+
+func verifPoint(point string) {
+	if VerifHook != nil {
+		VerifHook(point)
+	}
+}
